@@ -117,7 +117,7 @@ def run(chk):
            f"returns quote(token{'' if safe is None else ', safe=' + repr(safe)})" if okq else f"return expression is `{U(ret)[:60]}`",
            et, m, key="quote")
     for c in chain:
-        a = [x.value if isinstance(x, ast.Constant) else None for x in c.args]
+        a = [x.value if isinstance(x, ast.Constant) else (env.get(x.id) if isinstance(x, ast.Name) and isinstance(env.get(x.id), str) else None) for x in c.args]
         chk.ob("C03.T4", f"{P}.encode_token", len(a) == 2 and a[1] == ESC and isinstance(a[0], str) and a[0].upper() == "%%%02X" % ord(ESC),
                f"post-quote replacement {a!r} only restores the escape character", c, m, key=f"post:{a[0]}")
     # ---------------- T5
@@ -260,6 +260,13 @@ def run(chk):
           "escape, unquotes head+expansion once and never re-unquotes the recursively decoded tail")
     dt = repo.func(P, "decode_token")
     inv = [n for n in body_walk(dt) if isinstance(n, ast.DictComp)]
+    table_names = {U(s_.targets[0]) for s_ in body_walk(dt) if isinstance(s_, ast.Assign) and isinstance(s_.value, ast.DictComp)}
+    if not inv:
+        # the inverse table may be a module-level constant named by decode_token
+        for nm_ in ast.walk(dt):
+            if isinstance(nm_, ast.Name) and len(m.assigns.get(nm_.id, [])) == 1 and isinstance(m.assigns[nm_.id][0], ast.DictComp):
+                inv.append(m.assigns[nm_.id][0])
+                table_names.add(nm_.id)
     ok = len(inv) == 1 and len(inv[0].generators) == 1 and U(inv[0].generators[0].iter) == "ESCAPE_SEQUENCES" \
         and isinstance(inv[0].generators[0].target, ast.Tuple) and U(inv[0].key) == U(inv[0].generators[0].target.elts[1]) \
         and U(inv[0].value) == U(inv[0].generators[0].target.elts[0]) and not inv[0].generators[0].ifs
@@ -283,8 +290,19 @@ def run(chk):
            dt, m, key="no-double-unquote")
     ok = False
     for u in uqs:
-        if len(u.args) == 1 and isinstance(u.args[0], ast.BinOp) and "encoding.get(" in U(u.args[0]) and U(u.args[0]).startswith("head"):
-            ok = True
+        if len(u.args) == 1 and isinstance(u.args[0], ast.BinOp) and isinstance(u.args[0].op, ast.Add):
+            l_, r_ = u.args[0].left, u.args[0].right
+            # left operand: the slice before the escape (directly or through a local); right: <inverse table>.get(mid, mid)
+            left_is_head = (isinstance(l_, ast.Subscript) and isinstance(l_.slice, ast.Slice) and l_.slice.lower is None) or \
+                (isinstance(l_, ast.Name) and any(isinstance(s_, ast.Assign) and any(
+                    (U(t_) == l_.id and isinstance(s_.value, ast.Subscript) and isinstance(s_.value.slice, ast.Slice) and s_.value.slice.lower is None) or
+                    (isinstance(t_, ast.Tuple) and isinstance(s_.value, ast.Tuple) and any(
+                        U(te) == l_.id and isinstance(ve, ast.Subscript) and isinstance(ve.slice, ast.Slice) and ve.slice.lower is None
+                        for te, ve in zip(t_.elts, s_.value.elts))) for t_ in s_.targets) for s_ in body_walk(dt)))
+            right_is_lookup = isinstance(r_, ast.Call) and call_tail(r_) == "get" and call_recv(r_) in table_names and len(r_.args) == 2 \
+                and U(r_.args[0]) == U(r_.args[1])
+            if left_is_head and right_is_lookup:
+                ok = True
     chk.ob("C03.T10", f"{P}.decode_token", ok, "unquote(head + expansion) is the decoded prefix", dt, m, key="prefix")
     # ---------------- T11
     R(11, "StringActionParameter.encode returns encode_token(self.string) on every path; ActionRequest.from_arguments wraps plain "
